@@ -508,8 +508,11 @@ def body_pipeline(data) -> Outcome:
     for _, _, _, src, req, reduced in edges:
         s = {"k": "array", "a": [src]} if (reduced and src["k"] != "noannotation") else src
         eff.append((canon(s), canon(req)))
+    if any(e[5] and e[3]["k"] != "noannotation" and _is_objarray_like(e[3]) for e in edges):
+        out.labels.append("excluded:object-array-producer-on-reduced-edge")  # see ASSUMPTIONS; never generated
+        return out
     compat = [ref(s, r) for s, r in eff]
-    explicit_bad = [i for i, ok in enumerate(compat) if not ok]
+    explicit_bad =[i for i, ok in enumerate(compat) if not ok]
     want_ok = (not validate) or not explicit_bad
     n_red = sum(1 for e in edges if e[5])
     out.nontrivial = n_red > 0
@@ -921,13 +924,13 @@ def pipeline_case(draw):
 
 def campaigns(tier):
     cs = [
-        Campaign("pairs", body_pair, pair_strategy(), quick=16000, thorough=600000,
+        Campaign("pairs", body_pair, pair_strategy(), quick=16000, thorough=400000,
                  describe="is_type_compatible(A,B) == ref(A,B) on independent and related pairs, depth <= 3"),
-        Campaign("laws", body_laws, laws_case(), quick=5000, thorough=150000,
+        Campaign("laws", body_laws, laws_case(), quick=5000, thorough=100000,
                  describe="reflexivity, union introduction/elimination, covariance, Annotated transparency (implementation only)"),
         Campaign("depth1", body_pair, enumerate=enum_depth1, quick=0, thorough=0, exhaustive=True,
                  describe="all ordered pairs of the depth-1 grammar over 8 leaves (3-tuples over int/bool/str)"),
-        Campaign("pipelines", body_pipeline, pipeline_case(), quick=5000, thorough=150000,
+        Campaign("pipelines", body_pipeline, pipeline_case(), quick=5000, thorough=100000,
                  describe="2-3 function pipelines: direct / element-wise / reductions; TypeError iff an incompatible edge"),
     ]  # fmt: skip
     if tier == "thorough":
